@@ -1518,14 +1518,16 @@ class MacroFunction(Macro):
             comma = Punctuator("EXPANSION", -1, False, ",")
             va_args_raw = []
             va_args_exp = []
+            # An argument is only pre-expanded if the replacement list needs
+            # it: input_args[idx][-1] is the expansion if there is one
             for idx in range(len(self.args) - 1, len(input_args) - 1):
                 va_args_raw.extend(input_args[idx][0])
                 va_args_raw.append(comma)
-                va_args_exp.extend(input_args[idx][1])
+                va_args_exp.extend(input_args[idx][-1])
                 va_args_exp.append(comma)
             if len(self.args) - 1 < len(input_args):
                 va_args_raw.extend(input_args[-1][0])
-                va_args_exp.extend(input_args[-1][1])
+                va_args_exp.extend(input_args[-1][-1])
 
             input_args[len(self.args) - 1 :] = [(va_args_raw, va_args_exp)]
 
